@@ -127,13 +127,6 @@ example : semL8 34952 [⟨false, false, false⟩, ⟨true, false, true⟩, defau
 /-! ## memory level -/
 open KV.MapSound
 
-theorem first4_semL8 : First4 semL8 := by
-  intro code xs ys h
-  unfold semL8
-  simp only [arg]
-  rw [getD_append4 xs ys h 0 (by omega), getD_append4 xs ys h 1 (by omega), getD_append4 xs ys h 2 (by omega),
-    getD_append4 xs ys h 3 (by omega)]
-
 /-- **8-valued prediction on memory.** Accepted map, `c_caps_min ≥ 4`, delays ≥ 0, rows over known op codes; `e8` abstracts
     the stimulus stored in the initial memory. After ANY propagation (any implementation honouring `WaveStep`, any
     level-respecting order) the value `v` that 8-valued logic simulation of the rows (operands resolved through the stems,
